@@ -98,6 +98,14 @@ def gen(rng, tier, i):
             j = rng.randrange(n, len(ring))
             ring[j], ring[-1] = ring[-1], ring[j]
         ops = ring
+        if n == 3 and rng.random() < 0.6:
+            # distinct priorities in every order, and the watchdog straight after the ring closes
+            perm = rng.sample([0, 1, 2, 3], 3)
+            for e in pre:
+                if e[0] == "start":
+                    e[2] = perm[OPS.index(e[1])]
+            prio_of = {e[1]: e[2] for e in pre if e[0] == "start"}
+            ops = ops + [["wd"]]
         for j in range(n):
             held[RES[j]] = OPS[j]
         depth = max(depth, len(ops) + 2)
